@@ -412,6 +412,9 @@ def run(ctx):
 
     # ------------------------------------------------------------------ R1
     check_pair_predicate(ctx, "R1")
+    # PM6-family core-core term: a pair term that does not tend to Z_A Z_B / R breaks additivity at every distance (shared with C06-R10)
+    from .c06 import _pm6_core_core
+    _pm6_core_core(ctx, repo, "R4")
 
     # ------------------------------------------------------------------ R2
     cm = repo.mod(CONST)
